@@ -2,5 +2,5 @@
 # Regenerates baseline/<id>.json (which obligation keys are discharged on the unchanged tree). Run on the unchanged tree only.
 cd "$(dirname "$0")"
 for p in $(./.venv/bin/python -c "import props; print(' '.join(k for k,v in sorted(props.PROPS.items()) if v.get('contracts')))"); do
-  ./check $p --no-bounded --write-baseline | tail -1 | cut -c1-220
+  ./check $p --no-bounded --write-baseline | grep -v "^ok\|^KNOWN\|^  " | cut -c1-220
 done
